@@ -1309,10 +1309,11 @@ func (c *Context) Reduce(d, x *Decimal) (int, Condition, error) {
 		res, err := c.setAsNaN(d, x, nil)
 		return 0, res, err
 	}
-	neg := x.Negative
-	_, n := d.Reduce(x)
+	// Round first: trailing zeros are those of the rounded coefficient.
+	res := c.round(d, x)
+	neg := d.Negative
+	_, n := d.Reduce(d)
 	d.Negative = neg
-	res := c.round(d, d)
 	res, err := c.goError(res)
 	return n, res, err
 }
